@@ -267,9 +267,10 @@ class Item:
         `for` inside `impl .. for ..`/HRTB never appears inside fn bodies we extract."""
         m = self.src.masked
         res = []
-        if self.sig_open is None:
+        if self.sig_open is None and self.kind != 'block':
             return res
-        for mm in LOOP_RE.finditer(m, self.sig_open, self.end):
+        lo = self.start if self.sig_open is None else self.sig_open
+        for mm in LOOP_RE.finditer(m, lo, self.end):
             kw = mm.group(1)
             ob = next_open_brace(m, mm.end(), self.end)
             if ob < 0:
